@@ -201,6 +201,13 @@ Definition leaf_rw (E : facts) (oc : option ctx) (bvs : vars) (e e' : expr) : bo
       forallb (fun x => negb (vmem x bvs) && vmem x (map fst (lit_facts E))) (evars e) &&
       claim_ok (Claim (lit_facts E) oc e e')).
 
+Definition kb_rw (E : facts) (oc : option ctx) (bvs : vars) (c : expr) : option bool :=
+  if pure_na c && forallb (fun x => negb (vmem x bvs) && vmem x (map fst (lit_facts E))) (evars c) then
+    if claim_ok (Claim (lit_facts E) oc c (EBool true)) then Some true
+    else if claim_ok (Claim (lit_facts E) oc c (EBool false)) then Some false
+    else None
+  else None.
+
 Definition gen (p : pat) (e e' : expr) (E : facts) : facts :=
   match p with
   | PVar x =>
@@ -213,12 +220,12 @@ Fixpoint vrw (d : nat) (E : facts) (oc : option ctx) (st st' : stmt) {struct d} 
   match d with
   | O => None
   | S d' =>
-    let vx := vexpr (leaf_rw E oc) [] in
+    let vx := vexpr (leaf_rw E oc) (kb_rw E oc) [] in
     match st, st' with
     | SAssign p e, SAssign p' e' =>
         if pat_eqb p p' && vx e e' then Some (gen p e e' (kill (pvars p) E)) else None
     | SIndexAssign x idx e, SIndexAssign x' idx' e' =>
-        if String.eqb x x' && vexprs (leaf_rw E oc) [] idx idx' && vx e e' then Some E else None
+        if String.eqb x x' && vexprs (leaf_rw E oc) (kb_rw E oc) [] idx idx' && vx e e' then Some E else None
     | SIf1 c body, SIf1 c' body' =>
         if vx c c' then
           match vrwb d' E oc body body' with
@@ -235,7 +242,7 @@ Fixpoint vrw (d : nat) (E : facts) (oc : option ctx) (st st' : stmt) {struct d} 
         else None
     | SWhile c body, SWhile c' body' =>
         let Eh := kill (bound_block body) E in
-        if vexpr (leaf_rw Eh oc) [] c c' then
+        if vexpr (leaf_rw Eh oc) (kb_rw Eh oc) [] c c' then
           match vrwb d' Eh oc body body' with
           | Some _ => Some Eh
           | None => None
@@ -250,7 +257,7 @@ Fixpoint vrw (d : nat) (E : facts) (oc : option ctx) (st st' : stmt) {struct d} 
           end
         else None
     | SContext x e body, SContext x' e' body' =>
-        if oident_eqb x x' && vexpr (leaf_rw E (Some CReal)) [] e e' then
+        if oident_eqb x x' && vexpr (leaf_rw E (Some CReal)) (kb_rw E (Some CReal)) [] e e' then
           let oc' := known_ctx E e' in
           let E1 := kill (ovar x) E in
           let E2 := match x, oc' with
